@@ -39,6 +39,10 @@ def start_class(start, N):
 def anchor_class(a, nvec):
     if a is None:
         return "none"
+    if pathops.is_selfpos(a):
+        return "own-position"
+    if pathops.is_posof(a):
+        return "other-object-position"
     if a == 0:
         return "0"
     if isinstance(a[0], list):
@@ -47,6 +51,12 @@ def anchor_class(a, nvec):
 
 
 op_nvec = pathops.op_nvec
+
+
+def _plain(model):
+    """positions of a model as the value `obj.position` would have (squeezed)"""
+    P = np.array(model.P)
+    return (P[0] if len(P) == 1 else P).tolist()
 
 
 class C09Session(Session):
@@ -79,9 +89,13 @@ class C09Session(Session):
         obj = w.objs[i]
         N = len(obj._position)
         nvec = op_nvec(op)
+        # tokens {"posof": j}: live views of another object's path for the real call, plain values for the model
+        mop = pathops.materialise(op, lambda j: _plain(self.models[j % len(self.models)]))
+        rop = pathops.materialise(op, lambda j: w[j].position)
+        top = pathops.materialise(op, lambda j: self._sync_twin(j % len(w.objs)).position)
         # 1. rejected variants of this step's op, on a twin holding exactly the same path
         if self.cfg.get("rejects", True) and op["op"] != "reset_path":
-            for vop in pathops.reject_variants(op):
+            for vop in pathops.reject_variants(top):
                 t = self._sync_twin(i)
                 pre = snap_obj(t, self.twin.index, with_style=False)
                 out = pathops.exec_path_op(t, vop)
@@ -107,14 +121,15 @@ class C09Session(Session):
             rot = pathops.rotation_of(op)
             out_t = "ok"
             try:
-                t.rotate(rot, anchor=op.get("anchor"), start=op.get("start", "auto"))
+                t.rotate(rot, anchor=t.position if pathops.is_selfpos(op.get("anchor")) else top.get("anchor"),
+                         start=op.get("start", "auto"))
             except Exception as e:
                 out_t = "raised:" + type(e).__name__
             expect_equiv = (out_t, t._position.copy(), pathops.quats_of(t).copy())
         # 3. the op itself
         others = [snap_obj(o, w.index, with_style=False) if j != i else None for j, o in enumerate(w.objs)]
         pre = snap_obj(obj, w.index, with_style=False)
-        out = pathops.exec_path_op(obj, op)
+        out = pathops.exec_path_op(obj, rop)
         self.stats["ops"] += 1
         self.stats["op." + op["op"] + ("." + op["form"] if "form" in op else "")] += 1
         post = snap_obj(obj, w.index, with_style=False)
@@ -131,7 +146,7 @@ class C09Session(Session):
                                 f"{first_diff(pre, post)}", op=op["op"], form=op.get("form"), fault="natural")
             raise Violation("valid_call_rejected", f"{op['op']} {op.get('form')} raised {out}", op=op["op"],
                             form=op.get("form"), outcome=out)
-        res = pathops.apply_to_model(self.models[i], op)
+        res = pathops.apply_to_model(self.models[i], mop)
         if res[0] == "pad":
             if res[1]:
                 self.probe("pad_before")
@@ -151,7 +166,11 @@ class C09Session(Session):
             elif Nn > N:
                 self.probe("setter_pads")
         a = op.get("anchor")
-        if a is not None and a != 0 and isinstance(a[0], list):
+        if any(pathops.is_selfpos(x) for x in (a, op.get("d"), op.get("v"))):
+            self.probe("input_aliases_own_path")
+        if any(pathops.is_posof(x) for x in (a, op.get("d"), op.get("v"))):
+            self.probe("input_aliases_other_objects_path")
+        if isinstance(a, list) and a and isinstance(a[0], list):
             if len(a) != max(nvec, 1):
                 self.probe("per_step_anchor_len!=rotation_len")
         self._check_model(i, op)
@@ -215,6 +234,7 @@ class Sim:
             "forms": [f for f in pathops.FORMS if rng.random() < 0.7] or ["rotation"],
             "rejects": rng.random() < 0.8,
             "wild_start": rng.random() < 0.8,
+            "alias": rng.random() < 0.7,
         }
 
     def new_world_spec(self, rng, cfg):
@@ -241,7 +261,17 @@ class Sim:
         kinds = cfg["kinds"]
         if N > 40:  # keep paths bounded
             kinds = ["setter", "reset"]
-        return pathops.gen_path_op(rng, o, N, kinds=kinds, forms=cfg["forms"], wild=cfg["wild_start"])
+        op = pathops.gen_path_op(rng, o, N, kinds=kinds, forms=cfg["forms"], wild=cfg["wild_start"],
+                                 alias=cfg.get("alias", True))
+        if cfg.get("alias", True) and len(w.objs) > 1 and rng.random() < 0.1:
+            j = rng.choice([k for k in range(len(w.objs)) if k != o])
+            if op["op"] == "set_position":
+                op["v"] = {"posof": j}  # a.position = b.position: a live view of b's path
+            elif op["op"] == "rotate":
+                op["anchor"] = {"posof": j}
+            elif op["op"] == "move":
+                op["d"] = {"posof": j}
+        return op
 
     def simplify_op(self, op):
         yield from simplify_path_op(op)
@@ -265,7 +295,7 @@ def simplify_path_op(op):
             if op.get("anchor") is not None:
                 yield dict(op, anchor=None)
                 a = op["anchor"]
-                if a != 0 and isinstance(a[0], list) and len(a) > 1:
+                if isinstance(a, list) and a and isinstance(a[0], list) and len(a) > 1:
                     yield dict(op, anchor=a[:-1])
             if "degrees" in op and not op["degrees"]:
                 yield dict(op, degrees=True)
@@ -275,11 +305,12 @@ def simplify_path_op(op):
                 yield dict(op, **{key: v[:-1]})
             if key == "angle" and isinstance(v, list) and len(v) > 1 and op.get("form") == "angax":
                 yield dict(op, angle=v[:-1])
-        if k == "move" and isinstance(op["d"][0], list) is False and op["d"] != [1.0, 0.0, 0.0]:
+        if k == "move" and isinstance(op["d"], list) and isinstance(op["d"][0], list) is False \
+                and op["d"] != [1.0, 0.0, 0.0]:
             yield dict(op, d=[1.0, 0.0, 0.0])
     if k == "set_position":
         v = op["v"]
-        if isinstance(v[0], list) and len(v) > 1:
+        if isinstance(v, list) and isinstance(v[0], list) and len(v) > 1:
             yield dict(op, v=v[:-1])
     if k == "set_orientation":
         r = op["r"]
